@@ -233,7 +233,11 @@ def run(ctx):
     from rules import c04 as _c04, c03 as _c03
 
     _c04.r04_6_placeholders(ctx)  # every placeholder is rewritten / refused (shared with C04)
-    _c03.r03_1_skip_set(ctx)  # local/global slot classification (shared)
+    _c03.r03_1_skip_set(ctx)  # local/global slot classification; reserved, shared and dynamically indexed slots are never optimised away (shared)
+    _c03.r03_2_dependency_scan(ctx)  # a variable that is still loaded somewhere keeps its stores (shared with C03)
+    from rules import c11 as _c11
+
+    _c11.r11_3_exception_safe_restore(ctx)  # the marker that decides frame cell vs scratch slot for ABI values is restored on every path (shared with C11)
     return (
         "Abstract evaluation of the slot allocator on programs mixing requested and automatic slots (injectivity, requested ids honoured, total rewrite, limits), of the "
         "ScratchSlot constructor, and of the frame-local allocator around the 128 boundary; who-may-rewind rule for the id counter. Run-time isolation of values is not decided."
